@@ -93,8 +93,13 @@ class StoreLogTail(threading.Thread):
         self.reused = set()    # urls whose latest swap-out went to a file number released earlier in this process lifetime
         self.running = True
         self.buf = b""
+        self.poll_lock = threading.Lock()
 
     def poll(self):
+        with self.poll_lock:
+            self._poll()
+
+    def _poll(self):
         try:
             with open(self.path, "rb") as f:
                 f.seek(self.pos)
